@@ -359,7 +359,9 @@ impl Project {
             }
             let x = self.add_fixed(rng, kind, &xc, 1000);
             if kind == JobKind::Ephemeral {
-                let y = self.add_fixed(rng, JobKind::Output, &[x.as_str()], 1000);
+                // sometimes a second Ephemeral in between: a skipped Ephemeral whose only consumer is an Ephemeral
+                let x2 = if rng.chance(0.4) { self.add_fixed(rng, JobKind::Ephemeral, &[x.as_str()], 1000) } else { x.clone() };
+                let y = self.add_fixed(rng, JobKind::Output, &[x2.as_str()], 1000);
                 if rng.chance(0.4) {
                     self.add_fixed(rng, JobKind::Output, &[y.as_str()], 1000);
                 }
